@@ -3,6 +3,7 @@ package vc
 import (
 	"bytes"
 	"context"
+	"runtime"
 	"fmt"
 	"os"
 	"os/exec"
@@ -138,7 +139,25 @@ type solverResult struct {
 	dur    float64
 }
 
+// solverSlots bounds the number of solver processes running at once, so that per-obligation time-outs
+// measure solver work and not CPU contention.
+var solverSlots = make(chan struct{}, solverProcs())
+
+func solverProcs() int {
+	n := runtime.NumCPU() - 2
+	if n < 2 {
+		n = 2
+	}
+	return n
+}
+
 func runSolver(ctx context.Context, sc SolverCfg, file string, timeoutS, seed int) solverResult {
+	select {
+	case solverSlots <- struct{}{}:
+	case <-ctx.Done():
+		return solverResult{sc.Name, "timeout", "cancelled before start", 0}
+	}
+	defer func() { <-solverSlots }()
 	args := sc.Cmd(file, timeoutS, seed)
 	start := time.Now()
 	cctx, cancel := context.WithTimeout(ctx, time.Duration(timeoutS+2)*time.Second)
@@ -191,23 +210,28 @@ func (o *Obligation) Solve(opts SolveOpts) {
 		os.MkdirAll(opts.OutDir, 0o755)
 		gf := filepath.Join(opts.OutDir, fileName(o.Name)+".ground.smt2")
 		gt := opts.TimeoutS
-		if gt > 15 {
-			gt = 15
+		if gt > 10 {
+			gt = 10
 		}
 		gf0 := filepath.Join(opts.OutDir, fileName(o.Name)+".reals.smt2")
+		gf2 := filepath.Join(opts.OutDir, fileName(o.Name)+".ground2.smt2")
+		gf3 := filepath.Join(opts.OutDir, fileName(o.Name)+".ground3.smt2")
 		os.WriteFile(gf, []byte(o.SMTGround(gt*1000, opts.Seed, 1)), 0o644)
 		os.WriteFile(gf0, []byte(o.SMTGround(gt*1000, opts.Seed, 0)), 0o644)
+		os.WriteFile(gf2, []byte(o.SMTGround(gt*1000, opts.Seed, 2)), 0o644)
+		os.WriteFile(gf3, []byte(o.SMTGround(gt*1000, opts.Seed, 3)), 0o644)
 		start := time.Now()
-		ch := make(chan solverResult, 4)
+		files := []string{gf0, gf3, gf, gf2}
+		ch := make(chan solverResult, 2*len(files))
 		ctx, cancel := context.WithCancel(context.Background())
-		for _, file := range []string{gf0, gf} {
+		for _, file := range files {
 			for _, sc := range []SolverCfg{Solvers[0], Solvers[2]} {
 				sc, file := sc, file
 				go func() { ch <- runSolver(ctx, sc, file, gt, opts.Seed) }()
 			}
 		}
 		var got *solverResult
-		for i := 0; i < 4; i++ {
+		for i := 0; i < 2*len(files); i++ {
 			r := <-ch
 			if r.status == "unsat" {
 				got = &r
@@ -215,32 +239,9 @@ func (o *Obligation) Solve(opts SolveOpts) {
 			}
 		}
 		cancel()
-		if got == nil {
-			// third relaxation: heap reads kept as array selects (relates reads through different slices)
-			gf2 := filepath.Join(opts.OutDir, fileName(o.Name)+".ground2.smt2")
-			os.WriteFile(gf2, []byte(o.SMTGround(gt*1000, opts.Seed, 2)), 0o644)
-			gf3 := filepath.Join(opts.OutDir, fileName(o.Name)+".ground3.smt2")
-			os.WriteFile(gf3, []byte(o.SMTGround(gt*1000, opts.Seed, 3)), 0o644)
-			ch2 := make(chan solverResult, 4)
-			ctx2, cancel2 := context.WithCancel(context.Background())
-			for _, file := range []string{gf2, gf3} {
-				for _, sc := range []SolverCfg{Solvers[0], Solvers[2]} {
-					sc, file := sc, file
-					go func() { ch2 <- runSolver(ctx2, sc, file, gt, opts.Seed) }()
-				}
-			}
-			for i := 0; i < 4; i++ {
-				r := <-ch2
-				if r.status == "unsat" {
-					got = &r
-					break
-				}
-			}
-			cancel2()
-			if !opts.Keep {
-				os.Remove(gf2)
-				os.Remove(gf3)
-			}
+		if !opts.Keep {
+			os.Remove(gf2)
+			os.Remove(gf3)
 		}
 		if !opts.Keep {
 			os.Remove(gf0)
